@@ -123,6 +123,9 @@ int main(void)
   __CPROVER_assume(buf != 0);
   %s in;
   size_t k; __CPROVER_assume(k <= g_n);
+#ifdef VF_SMALL
+  __CPROVER_assume(g_n - k <= 8);   /* witness re-run: the 8 recorded bytes are the whole rest of the window */
+#endif
 ''' % intype_c
     if tracking == 'eager':
         h += '''  in._b0.m_begin = buf; in._b0.m_end = buf + g_n; in._b0.m_current.data = buf + k;
